@@ -2,7 +2,10 @@
 
 For each of `safe_contextmanager` and `safe_async_contextmanager` the translator emits
   * the decoration-time guards as a program of `gstmt` (which inspect predicate is tested, in which
-    order, which exception class is raised),
+    order, which exception class is raised; also guards written as `assert` statements - which vanish under
+    python -O -, guards that consult the global switch `is_enabled()`, and an early `return contextmanager(f)` /
+    `return asynccontextmanager(f)` / `return f` before the wrapper is defined: Model/SafeCtx.v gives them their
+    meaning under every switch state and interpreter mode and the theorems decide),
   * the body of the nested wrapper generator as a program of the statement language of
     Model/SafeCtx.v (`SAssignCall`, `SYieldNext`, `SNext`, `SPass`, `SReraise`, `STryFinally`,
     `STryExcept` with the caught classes),
@@ -28,6 +31,8 @@ EXC = {'BaseException': 'BaseExceptionC', 'Exception': 'ExceptionC', 'KeyboardIn
 IMPORTS = {'contextmanager': 'contextlib', 'asynccontextmanager': 'contextlib', 'wraps': 'functools',
            'isasyncgenfunction': 'inspect', 'isgeneratorfunction': 'inspect'}
 BUILTINS_USED = ('next', 'anext') + tuple(EXC)
+# names that may be imported in addition; when a guard uses one it must be bound exactly like this
+OPTIONAL_IMPORTS = {'is_enabled': 'pedantic.env_var_logic'}
 
 
 def bad(reason):
@@ -57,38 +62,65 @@ def check_module_bindings(tree):
     for name, mod in IMPORTS.items():
         if bound.get(name) != [(mod, name, 0)]:
             bad(f'{name} is not bound exactly once by `from {mod} import {name}` (found {bound.get(name)})')
+    for name, mod in OPTIONAL_IMPORTS.items():
+        if name in bound and bound[name] != [(mod, name, 0)]:
+            bad(f'{name} is bound at module level otherwise than once by `from {mod} import {name}` (found {bound[name]})')
     for name in BUILTINS_USED:
         if name in bound:
             bad(f'builtin {name} is shadowed at module level')
+    return bound
     for name in ('safe_contextmanager', 'safe_async_contextmanager'):
         if bound.get(name) != [('<def>', name, 0)]:
             bad(f'{name} is not bound exactly once, by its def (found {bound.get(name)})')
 
 
-def gcond(node, p):
+def gcond(node, p, bound):
     if isinstance(node, ast.UnaryOp) and isinstance(node.op, ast.Not):
-        return f'(CNot {gcond(node.operand, p)})'
+        return f'(CNot {gcond(node.operand, p, bound)})'
+    if isinstance(node, ast.BoolOp) and len(node.values) >= 2:
+        op = 'CAnd' if isinstance(node.op, ast.And) else 'COr'
+        out = gcond(node.values[-1], p, bound)
+        for v in reversed(node.values[:-1]):
+            out = f'({op} {gcond(v, p, bound)} {out})'
+        return out
     if isinstance(node, ast.Call) and isinstance(node.func, ast.Name) and len(node.args) == 1 and not node.keywords \
             and is_name(node.args[0], p):
         if node.func.id == 'isgeneratorfunction':
             return 'CIsGenFn'
         if node.func.id == 'isasyncgenfunction':
             return 'CIsAsyncGenFn'
+    if isinstance(node, ast.Call) and is_name(node.func, 'is_enabled') and not node.args and not node.keywords:
+        if bound.get('is_enabled') != [(OPTIONAL_IMPORTS['is_enabled'], 'is_enabled', 0)]:
+            bad(f'is_enabled() at line {node.lineno} is not pedantic.env_var_logic.is_enabled')
+        return 'CIsEnabled'
     bad(f'unrecognised guard condition at line {node.lineno}')
 
 
-def gblock(stmts, p):
+def gblock(stmts, p, bound):
     items = []
     for s in stmts:
         if isinstance(s, ast.If):
             if s.orelse:
                 bad(f'guard with else/elif at line {s.lineno}')
-            items.append(f'GIf {gcond(s.test, p)} ({gblock(s.body, p)})')
+            items.append(f'GIf {gcond(s.test, p, bound)} ({gblock(s.body, p, bound)})')
         elif isinstance(s, ast.Raise) and s.exc is not None and s.cause is None:
             e = s.exc.func if isinstance(s.exc, ast.Call) else s.exc
             if not (isinstance(e, ast.Name) and e.id in EXC):
                 bad(f'guard raises an unrecognised class at line {s.lineno}')
             items.append(f'GRaise {EXC[e.id]}')
+        elif isinstance(s, ast.Assert):
+            # `assert <cond>, <msg>`: AssertionError when the condition is false - and nothing at all under -O
+            items.append(f'GAssert {gcond(s.test, p, bound)}')
+        elif isinstance(s, ast.Return) and s.value is not None:
+            # leaving before the wrapper is defined: the decorated function without the wrapper
+            r = s.value
+            if is_name(r, p):
+                items.append('GReturn EarlyBareF')
+            elif isinstance(r, ast.Call) and isinstance(r.func, ast.Name) and len(r.args) == 1 and not r.keywords \
+                    and is_name(r.args[0], p) and r.func.id in ('contextmanager', 'asynccontextmanager'):
+                items.append('GReturn ' + ('EarlyContextmanagerF' if r.func.id == 'contextmanager' else 'EarlyAsyncContextmanagerF'))
+            else:
+                bad(f'unrecognised early return at line {s.lineno}')
         else:
             bad(f'unrecognised guard statement at line {s.lineno}')
     out = 'GNil'
@@ -192,7 +224,7 @@ class Wrapper:
         bad(f'unrecognised statement in the wrapper at line {s.lineno}: {type(s).__name__}')
 
 
-def one(src, tree, name):
+def one(src, tree, name, bound):
     d = find_def(tree, name, UNIT, kinds=(ast.FunctionDef,))
     if d not in tree.body:
         bad(f'{name} is not a module-level function')
@@ -207,7 +239,7 @@ def one(src, tree, name):
     if len(defs) != 1:
         bad(f'{name}: expected exactly one nested function, found {len(defs)}')
     i = defs[0]
-    guards = gblock(body[:i], p)
+    guards = gblock(body[:i], p, bound)
     wdef = body[i]
     rest = body[i + 1:]
     if len(rest) != 1 or not isinstance(rest[0], ast.Return) or rest[0].value is None:
@@ -230,7 +262,7 @@ def one(src, tree, name):
     # nothing inside the decorator may rebind the names the translation relies on
     for n in ast.walk(d):
         if isinstance(n, ast.Name) and isinstance(n.ctx, (ast.Store, ast.Del)) and \
-                (n.id in IMPORTS or n.id in BUILTINS_USED or n.id == p):
+                (n.id in IMPORTS or n.id in OPTIONAL_IMPORTS or n.id in BUILTINS_USED or n.id == p):
             bad(f'{name}: {n.id} is rebound at line {n.lineno}')
         if isinstance(n, (ast.Global, ast.Nonlocal, ast.Import, ast.ImportFrom, ast.Lambda, ast.ClassDef)):
             bad(f'{name}: unsupported construct {type(n).__name__} at line {n.lineno}')
@@ -247,8 +279,8 @@ def one(src, tree, name):
 
 def translate():
     src, tree = load(REL)
-    check_module_bindings(tree)
+    bound = check_module_bindings(tree)
     out = header('t_ctx.py', ['From PV Require Import Base.Exn Model.Generator Model.SafeCtx.'])
-    out += one(src, tree, 'safe_contextmanager')
-    out += one(src, tree, 'safe_async_contextmanager')
+    out += one(src, tree, 'safe_contextmanager', bound)
+    out += one(src, tree, 'safe_async_contextmanager', bound)
     return {UNIT: out}
